@@ -849,6 +849,16 @@ func (te *TemplateEngine) cloneDocument(source *Document) *Document {
 		copy(doc.documentRelationships.Relationships, source.documentRelationships.Relationships)
 	}
 
+	// 复制包级关系（_rels/.rels）：模板文件除主文档外还可能声明 docProps/core.xml、docProps/app.xml
+	// 等部件的关系；这些部件已随 parts 一起复制，缺少关系它们在渲染结果中就成了孤立部件
+	if source.relationships != nil && len(source.relationships.Relationships) > 0 {
+		doc.relationships = &Relationships{
+			Xmlns:         source.relationships.Xmlns,
+			Relationships: make([]Relationship, len(source.relationships.Relationships)),
+		}
+		copy(doc.relationships.Relationships, source.relationships.Relationships)
+	}
+
 	// 复制内容类型
 	if source.contentTypes != nil {
 		doc.contentTypes = &ContentTypes{
